@@ -1267,3 +1267,41 @@ func F23(variants []string) []*Case {
 	}
 	return out
 }
+
+// WithSentences adds to every case up to n sentences of its grammar (see Sentences; at most maxLen
+// runes, longest first: the short ones are in the enumerated input space already) and their
+// one-rune deletions as extra inputs.
+func WithSentences(cs []*Case, depth, n, maxLen int) []*Case {
+	for _, c := range cs {
+		if len(c.G.Rules) < 2 || c.Hex {
+			continue
+		}
+		sent := Sentences(c.G, c.G.Rules[0].Name, depth, 200)
+		sort.SliceStable(sent, func(i, j int) bool { return len([]rune(sent[i])) > len([]rune(sent[j])) })
+		seen := map[string]bool{}
+		for _, x := range c.Extra {
+			seen[x] = true
+		}
+		k := 0
+		for _, s := range sent {
+			r := []rune(s)
+			if len(r) > maxLen || len(r) <= c.MaxLen {
+				continue
+			}
+			if k++; k > n {
+				break
+			}
+			for i := -1; i < len(r); i++ {
+				t := s
+				if i >= 0 {
+					t = string(r[:i]) + string(r[i+1:])
+				}
+				if !seen[t] {
+					seen[t] = true
+					c.Extra = append(c.Extra, t)
+				}
+			}
+		}
+	}
+	return cs
+}
